@@ -169,6 +169,134 @@ theorem headCls_of (l : List Scalar) (hl : l ≠ []) (c : Cls) (hc : ∀ x ∈ l
   | nil => exact absurd rfl hl
   | cons x xs => simp [headCls, hc x (by simp)]
 
+open Lean Elab Tactic Meta in
+/-- unfolds (one level, a few rounds) every generated method of `Set` that occurs in the goal: helper methods that a
+    refactoring introduces are found through the goal, they need not be known by name -/
+elab "unfold_set_methods" : tactic => withMainContext do
+  for _ in [0:3] do
+    let g ← getMainGoal
+    let t ← instantiateMVars (← g.getType)
+    let names := t.getUsedConstants.toList.filter fun nm => (`Gen.Ex.Set).isPrefixOf nm
+    if names.isEmpty then break
+    for nm in names do
+      evalTactic (← `(tactic| try unfold $(mkIdent nm)))
+
+/-! ### evaluation of PyLib primitives on lists of embedded primitives, and loops over them
+
+  The proofs about `Set.__init__` do not follow the shape of the generated term: the term is rewritten with these facts into a
+  normal form in which the emptiness test is a constant and the homogeneity test is `!sameKinds l`, whichever idiom the source uses
+  (`len(xs) < 1` / `not xs`; `len(set(map(type, xs))) != 1` / `any(type(x) is not t for x in rest)` / …). -/
+
+theorem ev_truthy_list (env : Py.Env) (xs : List Obj) : Py.truthy env (.list xs) = .ok (!xs.isEmpty) := rfl
+theorem ev_not_list (env : Py.Env) (xs : List Obj) : Py.not_ env (.list xs) = .ok (.bool (!(!xs.isEmpty))) := rfl
+theorem isEmpty_map_cons (x : Scalar) (xs : List Scalar) : (List.map embS (x :: xs)).isEmpty = false := rfl
+theorem ev_type_embS (env : Py.Env) (y : Scalar) : Py.type_ env (embS y) = .ok (.cls (kindCls y)) := by cases y <;> rfl
+theorem ev_is_cls (env : Py.Env) (a b : Cls) : Py.is_ env (.cls a) (.cls b) = .ok (.bool (a == b)) := rfl
+theorem ev_is_not_cls (env : Py.Env) (a b : Cls) : Py.is_not env (.cls a) (.cls b) = .ok (.bool (!(a == b))) := rfl
+theorem ev_ne_cls (env : Py.Env) (a b : Cls) : Py.ne env (.cls a) (.cls b) = .ok (.bool (!(a == b))) := rfl
+
+theorem ev_unpack_head (env : Py.Env) (x : Scalar) (xs : List Scalar) :
+    Py.unpack env (.list (List.map embS (x :: xs))) 1 true 0 = .ok [embS x, .list (xs.map embS)] := by
+  simp [Py.unpack, Py.iterToList, Py.iterNative, pure_eq_ok]
+theorem ev_nth_zero (a b : Obj) : Py.nth [a, b] 0 = a := rfl
+theorem ev_nth_one (a b : Obj) : Py.nth [a, b] 1 = b := rfl
+theorem ev_getitem_head (env : Py.Env) (x : Scalar) (xs : List Scalar) :
+    Py.getitem env (.list (List.map embS (x :: xs))) (.int 0) = .ok (embS x) := rfl
+
+/-- `any(…)` / `all(…)` over embedded primitives, with the loop body as a function of the primitive -/
+def anyS (env : Py.Env) (f : Scalar → E Obj) : List Scalar → E Obj
+  | [] => pure (.bool false)
+  | y :: ys => do
+    let v ← f y
+    if ← Py.truthy env v then pure (.bool true) else anyS env f ys
+
+def allS (env : Py.Env) (f : Scalar → E Obj) : List Scalar → E Obj
+  | [] => pure (.bool true)
+  | y :: ys => do
+    let v ← f y
+    if ← Py.truthy env v then allS env f ys else pure (.bool false)
+
+theorem anyL_map_embS (env : Py.Env) (f : Obj → E Obj) (ys : List Scalar) :
+    Py.anyL env f (ys.map embS) = anyS env (fun y => f (embS y)) ys := by
+  induction ys with
+  | nil => rfl
+  | cons y ys ih => simp only [List.map_cons, Py.anyL, anyS, ih]
+
+theorem allL_map_embS (env : Py.Env) (f : Obj → E Obj) (ys : List Scalar) :
+    Py.allL env f (ys.map embS) = allS env (fun y => f (embS y)) ys := by
+  induction ys with
+  | nil => rfl
+  | cons y ys ih => simp only [List.map_cons, Py.allL, allS, ih]
+
+theorem ev_anyM_list (env : Py.Env) (f : Obj → E Obj) (l : List Obj) : Py.anyM env f (.list l) = Py.anyL env f l := rfl
+theorem ev_allM_list (env : Py.Env) (f : Obj → E Obj) (l : List Obj) : Py.allM env f (.list l) = Py.allL env f l := rfl
+
+theorem anyS_pure (env : Py.Env) (p : Scalar → Bool) (ys : List Scalar) :
+    anyS env (fun y => .ok (.bool (p y))) ys = .ok (.bool (ys.any p)) := by
+  induction ys with
+  | nil => rfl
+  | cons y ys ih =>
+    simp only [anyS, ok_bind, truthy_bool, ih, List.any_cons]
+    cases p y <;> rfl
+
+theorem allS_pure (env : Py.Env) (p : Scalar → Bool) (ys : List Scalar) :
+    allS env (fun y => .ok (.bool (p y))) ys = .ok (.bool (ys.all p)) := by
+  induction ys with
+  | nil => rfl
+  | cons y ys ih =>
+    simp only [allS, ok_bind, truthy_bool, ih, List.all_cons]
+    cases p y <;> rfl
+
+/-! ### the idioms of the two tests of `Set.__init__`, in normal form -/
+
+theorem idiom_len_lt_one (k : Nat) : decide (((k + 1 : Nat) : Int) * ((1 : Nat) : Int) < 1 * ((1 : Nat) : Int)) = false := by
+  rw [decide_eq_false_iff_not]; omega
+
+theorem kindCls_beq (y x : Scalar) : (kindCls y == kindCls x) = (y.kind == x.kind) := by
+  cases y <;> cases x <;> rfl
+
+/-- `any(type(y) is not type(x) for y in rest)` and `not all(type(y) is type(x) …)` -/
+theorem hetero_any (x : Scalar) (xs : List Scalar) :
+    (xs.any fun y => !(kindCls y == kindCls x)) = !sameKinds (x :: xs) := by
+  show _ = !(xs.all fun y => y.kind == x.kind)
+  rw [List.all_eq_not_any_not, Bool.not_not]
+  congr 1; funext y; rw [kindCls_beq]
+
+theorem hetero_all (x : Scalar) (xs : List Scalar) :
+    (xs.all fun y => kindCls y == kindCls x) = sameKinds (x :: xs) := by
+  show _ = (xs.all fun y => y.kind == x.kind)
+  congr 1; funext y; rw [kindCls_beq]
+
+/-- `len(set(map(type, xs))) != 1` -/
+theorem hetero_dedup (x : Scalar) (xs : List Scalar) :
+    (!(((dedupK kindCls (x :: xs)).length : Int) == 1 && ((1 : Nat) == 1))) = !sameKinds (x :: xs) := by
+  have hne : x :: xs ≠ [] := by simp
+  by_cases hk : sameKinds (x :: xs) = true
+  · have hall := (sameKinds_iff (x :: xs)).mp hk
+    have hc : ∀ y ∈ x :: xs, kindCls y = kindCls x := fun y hy => (kindCls_eq_iff _ _).mpr (hall y hy x (by simp))
+    obtain ⟨z, hz, _⟩ := dedupK_const kindCls (x :: xs) hne (kindCls x) hc
+    rw [hz, hk]; rfl
+  · have hlen2 : (dedupK kindCls (x :: xs)).length ≠ 1 := by
+      intro h1
+      apply hk
+      rw [sameKinds_iff]
+      intro a ha b hb
+      exact (kindCls_eq_iff _ _).mp (dedupK_length_one kindCls (x :: xs) h1 a ha b hb)
+    have h1 : ¬ (((dedupK kindCls (x :: xs)).length : Int) = 1) := by omega
+    have hk' : sameKinds (x :: xs) = false := by simpa using hk
+    rw [hk']; simp [h1]
+
+/-- the element type, when it is taken from the set of the classes of a homogeneous list -/
+theorem dedup_cls_of_same (x : Scalar) (xs : List Scalar) (hk : sameKinds (x :: xs) = true) :
+    (dedupK kindCls (x :: xs)).map clsObj = [.cls (kindCls x)] := by
+  have hall := (sameKinds_iff (x :: xs)).mp hk
+  have hc : ∀ y ∈ x :: xs, kindCls y = kindCls x := fun y hy => (kindCls_eq_iff _ _).mpr (hall y hy x (by simp))
+  obtain ⟨z, hz, hzl⟩ := dedupK_const kindCls (x :: xs) (by simp) (kindCls x) hc
+  rw [hz]; simp [clsObj, hc z hzl]
+
+theorem ev_issubclass_cls_any (env : Py.Env) (x : Scalar) :
+    Py.issubclass Gen.Ex.mro env (.cls (kindCls x)) (.cls .Any) = .ok (.bool true) := by cases x <;> rfl
+
 /-- `Set(elements)` on a list of primitives: empty and heterogeneous lists are rejected, otherwise the instance holds the
     elements without duplicates (strings identified by their normal form) -/
 theorem gen_set_new (l : List Scalar) :
@@ -178,41 +306,28 @@ theorem gen_set_new (l : List Scalar) :
   cases l with
   | nil => rfl
   | cons x xs =>
-    generalize hl : x :: xs = l
-    have hne : l ≠ [] := by rw [← hl]; simp
+    have hne : x :: xs ≠ [] := by simp
     simp only [hne, ↓reduceIte]
     unfold Gen.Ex.Set.__new__ Gen.Ex.Set.__init__
-    simp only [ev_list_list, ok_bind, ev_len_list, ev_lt_int, truthy_bool, List.length_map]
-    have hlen : ¬ ((l.length : Int) * ((1 : Nat) : Int) < 1 * ((1 : Nat) : Int)) := by
-      have : 0 < l.length := List.length_pos_of_ne_nil hne
-      omega
-    simp only [hlen, decide_false, Bool.false_eq_true, ↓reduceIte, ev_map_type, ev_frozenset_cls, ev_len_fset, ev_ne_int,
-      List.length_map, ok_bind, pure_eq_ok, truthy_bool]
-    by_cases hk : sameKinds l = true
-    · have hall := (sameKinds_iff l).mp hk
-      obtain ⟨x0, hx0⟩ := List.exists_mem_of_ne_nil l hne
-      have hc : ∀ y ∈ l, kindCls y = kindCls x0 := fun y hy => (kindCls_eq_iff _ _).mpr (hall y hy x0 hx0)
-      obtain ⟨z, hz, hzl⟩ := dedupK_const kindCls l hne (kindCls x0) hc
-      have hvne : dedupK normS l ≠ [] := dedupK_ne_nil _ l hne
-      have hhead : headCls (dedupK normS l) = .cls (kindCls x0) :=
-        headCls_of _ hvne _ fun y hy => hc y (mem_of_mem_dedupK _ l y hy)
-      simp only [hk, hz, List.length_singleton, ↓reduceIte, List.map_cons, List.map_nil, ev_list_fset, ev_getitem_zero,
-        ev_setattr_nil, ev_frozenset_embS, ev_setattr_value, ev_getattr_et, clsObj, ev_issubclass_any, ev_not_bool, truthy_bool,
-        Bool.not_true, Bool.false_eq_true, pure_eq_ok, ok_bind]
-      have e1 : (!(((1 : Nat) : Int) == 1 && (1 : Nat) == 1)) = false := by decide
-      rw [e1]
-      simp only [Bool.false_eq_true, ↓reduceIte, setObj, hhead, hc z hzl]
-    · have hlen2 : (dedupK kindCls l).length ≠ 1 := by
-        intro h1
-        apply hk
-        rw [sameKinds_iff]
-        intro a ha b hb
-        exact (kindCls_eq_iff _ _).mp (dedupK_length_one kindCls l h1 a ha b hb)
-      have : ¬ (((dedupK kindCls l).length : Int) = 1) := by omega
-      have e1 : (!((((dedupK kindCls l).length : Nat) : Int) == 1 && (1 : Nat) == 1)) = true := by
-        simp [this]
-      rw [e1]
-      simp only [hk, ↓reduceIte]; rfl
+    unfold_set_methods
+    -- both tests in normal form
+    simp only [ev_list_list, ok_bind, pure_eq_ok, truthy_bool, ev_truthy_list, ev_not_list, isEmpty_map_cons, ev_not_bool,
+      ev_len_list, ev_lt_int, List.length_map, List.length_cons, idiom_len_lt_one,
+      ev_map_type, ev_frozenset_cls, ev_len_fset, ev_ne_int, ev_eq_cls, hetero_dedup,
+      ev_unpack_head, ev_nth_zero, ev_nth_one, ev_getitem_head, ev_type_embS, ev_anyM_list, ev_allM_list, anyL_map_embS, allL_map_embS,
+      ev_is_cls, ev_is_not_cls, ev_ne_cls, anyS_pure, allS_pure, hetero_any, hetero_all,
+      Bool.not_true, Bool.not_false, Bool.not_not, Bool.false_eq_true, ↓reduceIte]
+    by_cases hk : sameKinds (x :: xs) = true
+    · have hc : ∀ y ∈ x :: xs, kindCls y = kindCls x := fun y hy =>
+        (kindCls_eq_iff _ _).mpr ((sameKinds_iff (x :: xs)).mp hk y hy x (by simp))
+      have hhead : headCls (dedupK normS (x :: xs)) = .cls (kindCls x) :=
+        headCls_of _ (dedupK_ne_nil _ _ hne) _ fun y hy => hc y (mem_of_mem_dedupK _ _ y hy)
+      simp only [hk, Bool.not_true, Bool.false_eq_true, ↓reduceIte, ev_list_fset, dedup_cls_of_same x xs hk, ev_getitem_zero,
+        ev_setattr_nil, ev_frozenset_embS, ev_setattr_value, ev_getattr_et, ev_issubclass_cls_any, ev_not_bool, truthy_bool,
+        pure_eq_ok, ok_bind, setObj, hhead]
+    · have hk' : sameKinds (x :: xs) = false := by simpa using hk
+      simp only [hk', Bool.not_false, ↓reduceIte, Bool.false_eq_true]
+      rfl
 
 /-! ## Element-wise application -/
 
@@ -227,6 +342,23 @@ theorem ev_listcomp_set (raw : List Scalar) (f : Obj → E Obj) :
 theorem ev_isinstance_sc_set (env : Py.Env) (y : Scalar) : Py.isinstance Gen.Ex.mro env (embS y) (.cls .Set) = .ok (.bool false) := by
   cases y <;> rfl
 
+theorem ev_forIn_set {σ : Type} (raw : List Scalar) (init : σ) (body : σ → Obj → E σ) :
+    Py.forIn env1 (setObj raw) init body = (raw.map embS).foldlM body init := rfl
+
+/-- a loop that appends one result per element to a list is the list comprehension -/
+theorem foldlM_append (env : Py.Env) (f : Obj → E Obj) (l init : List Obj) :
+    l.foldlM (fun acc x => f x >>= fun t => Py.list_append env acc t) (Obj.list init) =
+      (l.mapM f >>= fun r => .ok (Obj.list (init ++ r))) := by
+  induction l generalizing init with
+  | nil => simp [pure_eq_ok]
+  | cons a l ih =>
+    rw [List.foldlM_cons, List.mapM_cons]
+    cases h : f a with
+    | error e => rfl
+    | ok t =>
+      have : Py.list_append env (Obj.list init) t = .ok (Obj.list (init ++ [t])) := rfl
+      simp only [ok_bind, this, ih, bind_assoc, pure_eq_ok, List.append_assoc, List.singleton_append]
+
 theorem gen_elementwise (raw : List Scalar) (y : Scalar) (impl : Obj → Obj → E Obj) :
     (Gen.Ex.Set._elementwise env1 (setObj raw) impl (embS y) (.bool false) =
       ((raw.map embS).mapM (fun x => impl x (embS y)) >>= fun l => Gen.Ex.Set.__new__ env1 (.list l))) ∧
@@ -234,8 +366,9 @@ theorem gen_elementwise (raw : List Scalar) (y : Scalar) (impl : Obj → Obj →
       ((raw.map embS).mapM (fun x => impl (embS y) x) >>= fun l => Gen.Ex.Set.__new__ env1 (.list l))) := by
   constructor <;>
   · unfold Gen.Ex.Set._elementwise
+    unfold_set_methods
     simp only [ev_isinstance_sc_set, ok_bind, ev_not_bool, truthy_bool, Bool.not_false, ↓reduceIte, ev_genexp_set, ev_listcomp_set,
-      Bool.false_eq_true, bind_assoc, pure_eq_ok, bind_pure]
+      ev_forIn_set, foldlM_append, List.nil_append, Bool.false_eq_true, bind_assoc, pure_eq_ok, bind_pure]
 
 theorem elementwise_set_set (ra rb : List Scalar) (impl : Obj → Obj → E Obj) (sw : Obj) :
     Gen.Ex.Set._elementwise env1 (setObj ra) impl (setObj rb) sw = .error .UndefinedOperatorError := rfl
